@@ -142,7 +142,16 @@ Bytes fresh_prefix_pdu(uint8_t ver, int si, uint32_t tag, uint8_t flags)
 
 bool is_payload(const Bytes &b)
 {
-	return b.size() >= 8 && (b[1] == PDU_IPV4 || b[1] == PDU_IPV6 || b[1] == PDU_ROUTER_KEY);
+	// (raw / hostile answers can hold fragments of any size: only complete PDUs are edited in place)
+	if (b.size() < 8)
+		return false;
+	if (b[1] == PDU_IPV4)
+		return b.size() >= 20;
+	if (b[1] == PDU_IPV6)
+		return b.size() >= 32;
+	if (b[1] == PDU_ROUTER_KEY)
+		return b.size() >= 8 + SKI_SIZE + 4 + SPKI_SIZE;
+	return false;
 }
 
 void mutate(World &W, Peer &p, Exchange &x, std::vector<Bytes> &pdus, const J &m, uint8_t rv, const Bytes &query)
@@ -161,7 +170,7 @@ void mutate(World &W, Peer &p, Exchange &x, std::vector<Bytes> &pdus, const J &m
 	};
 	auto find_type = [&](int type) -> long {
 		for (size_t i = 0; i < n; i++)
-			if (pdus[i].size() >= 2 && pdus[i][1] == type)
+			if (pdus[i].size() >= (type == PDU_EOD ? 12u : 8u) && pdus[i][1] == type)
 				return (long)i;
 		return -1;
 	};
@@ -211,7 +220,7 @@ void mutate(World &W, Peer &p, Exchange &x, std::vector<Bytes> &pdus, const J &m
 		if (eod >= 0)
 			set16(pdus[(size_t)eod], 2, (uint16_t)(get16(&pdus[(size_t)eod][2]) ^ d));
 	} else if (k == "ver") {
-		if (n)
+		if (n && !pdus[at].empty())
 			pdus[at][0] = (uint8_t)m.geti("v", 0);
 	} else if (k == "verall") {
 		for (auto &b : pdus)
@@ -261,7 +270,7 @@ void mutate(World &W, Peer &p, Exchange &x, std::vector<Bytes> &pdus, const J &m
 		pdus.insert(pdus.begin() + (long)ins, a);
 		eod = -1;
 		for (size_t i = 0; i < pdus.size(); i++)
-			if (pdus[i].size() >= 2 && pdus[i][1] == PDU_EOD)
+			if (pdus[i].size() >= 12 && pdus[i][1] == PDU_EOD)
 				eod = (long)i;
 		pdus.insert(pdus.begin() + (eod >= 0 ? eod : (long)pdus.size()), wd);
 	} else if (k == "wdann") { // valid on a delta: withdraw a present record, later announce it again
